@@ -98,9 +98,19 @@ Proof.
   rewrite has_eof_app, eof_close_events. reflexivity.
 Qed.
 
+Lemma shape_data c sid size dlen padded ended : CF.k_mode c <> 2 -> shape c (CF.data_step c sid size dlen padded ended).
+Proof.
+  intros M. unfold CF.data_step. destruct (CF.find_active sid (CF.k_streams c)) as [s|]; [|apply shape_same; auto].
+  destruct ((0 <? size) && _); [apply shape_close_one, M|].
+  destruct (negb (CF.x_ng s =? -1)).
+  - destruct ((1024 <=? _) || ended); [apply shape_close_one, M|].
+    destruct (CF.on_read _ _ _) as [pd' pu']. apply shape_streams; auto.
+  - destruct (if padded then _ else _) as [pd' pu']. destruct ended; [apply shape_close_one, M|apply shape_streams; auto].
+Qed.
+
 Lemma shape_exec c o : CF.k_mode c <> 2 -> (forall id code, o <> CF.OGoAway id code) -> shape c (CF.exec_op c o).
 Proof.
-  intros M Hn. destruct o as [dl|sid ended fs|sid size ended|sid code| |id code|sid inc| |sid|ms]; cbn [CF.exec_op].
+  intros M Hn. destruct o as [dl|sid ended fs|sid size ended|sid code| |id code|sid inc| |sid|ms|sid dlen plen ended|sid val]; cbn [CF.exec_op].
   - destruct (CF.k_mode c =? 0); [|apply shape_same; auto].
     constructor; cbn [fst snd CF.k_mode CF.k_goaway CF.k_prev]; auto.
     destruct (Z.eqb_spec (CF.k_mode c) 2); [contradiction|reflexivity].
@@ -108,12 +118,7 @@ Proof.
     destruct (negb (CF.meta_ok fs)); [apply shape_close_one, M|].
     destruct (CF.headers_result s ended fs) as [| |hc|hc hr];
       [apply shape_same; auto | apply shape_streams; auto | apply shape_streams; auto | apply shape_close_one, M].
-  - destruct (CF.find_active sid (CF.k_streams c)) as [s|]; [|apply shape_same; auto].
-    destruct ((0 <? size) && _); [apply shape_close_one, M|].
-    destruct (negb (CF.x_ng s =? -1)).
-    + destruct ((1024 <=? _) || ended); [apply shape_close_one, M|].
-      destruct (if CF.x_pd s + size =? 0 then _ else _) as [pd' pu']. apply shape_streams; auto.
-    + destruct ended; [apply shape_close_one, M|apply shape_streams; auto].
+  - apply shape_data, M.
   - destruct (CF.find_active sid (CF.k_streams c)) as [s|]; [apply shape_close_one, M|apply shape_same; auto].
   - apply shape_same; auto.
   - exfalso. eapply Hn. reflexivity.
@@ -123,6 +128,8 @@ Proof.
   - apply shape_close_one, M.
   - constructor; cbn [fst snd CF.k_mode CF.k_goaway CF.k_prev]; auto.
     destruct (Z.eqb_spec (CF.k_mode c) 2); [contradiction|reflexivity].
+  - apply shape_data, M.
+  - destruct ((sid =? 4) && (2147483647 <? val)); [apply shape_close_conn, M|apply shape_same; auto].
 Qed.
 
 (* what a GOAWAY does to the connection-level ledger *)
@@ -181,7 +188,7 @@ Proof.
                 (CF.k_mode c <> 0 -> CF.k_mode (fst (CF.exec_op c o0)) <> 0)).
       { intros o0 Hn. destruct (shape_exec c o0 E Hn) as [_ [M|M] [Ga _]]; rewrite Ga, M; split;
           try (intros; discriminate); auto. }
-      destruct o as [dl|sid ended fs|sid size ended|sid code| |id code|sid inc| |sid|ms];
+      destruct o as [dl|sid ended fs|sid size ended|sid code| |id code|sid inc| |sid|ms|sid dlen plen ended|sid val];
         try (apply NG; congruence).
       destruct (goaway_exec c id code E) as [_ X]. cbv zeta in X. destruct (accepted_goaway c id).
       - destruct X as (A & _ & [M|M]); rewrite M.
@@ -274,7 +281,7 @@ Definition okc (c : Z * Z * bool) : bool := finding_clause (fst (fst c)) || snd 
 
 Lemma cclause_ok c o : ginv c -> forallb okc (cclause c o (snd (CF.step c o))) = true.
 Proof.
-  intros G. destruct o as [dl|sid ended fs|sid size ended|sid code| |id code|sid inc| |sid|ms]; try reflexivity.
+  intros G. destruct o as [dl|sid ended fs|sid size ended|sid code| |id code|sid inc| |sid|ms|sid dlen plen ended|sid val]; try reflexivity.
   - cbn [cclause forallb]. rewrite andb_true_r. unfold okc. cbn [fst snd finding_clause Z.eqb Pos.eqb orb].
     destruct (CF.k_goaway c) eqn:H; [|reflexivity]. cbn [negb orb].
     apply forallb_forall. intros e He. destruct (Z.eqb_spec (CF.tag e) 0) as [T|T]; [|reflexivity].
